@@ -5,7 +5,7 @@ META = {
     'level': 'model_checking',
     'files': ['pybufrkit/coder.py', 'pybufrkit/decoder.py', 'pybufrkit/encoder.py', 'pybufrkit/templatedata.py', 'pybufrkit/descriptors.py',
               'pybufrkit/renderer.py'],
-    'functions': ['coder.Coder.process_bitmap_definition / process_bitmapped_descriptor / process_marker_operator_descriptor / process_associated_field',
+    'functions': ['encoder.Encoder.define_bitmap / process_template_data (bitmap families, 2 subsets)', 'coder.Coder.process_bitmap_definition / process_bitmapped_descriptor / process_marker_operator_descriptor / process_associated_field',
                   'coder.CoderState.build_bitmapped_descriptors / add_bitmap_link / recall_bitmap / cancel_bitmap / cancel_all_back_references',
                   'decoder.Decoder.define_bitmap', 'templatedata.TemplateData.wire / wire_element_descriptor / wire_operator_descriptor / wire_bitmap_attribute',
                   'renderer.NestedJsonRenderer._render_template_data_*', 'descriptors.MarkerDescriptor.from_element_descriptor'],
@@ -38,6 +38,13 @@ def jobs(tier, seed):
     for name in ('c-222', 'c-224', 'c-225', 'c-204'):
         J.append(Job('c2:' + name, 'harness.c07', 'h_links', {'family': name, 'compressed': True, 'n_subsets': 2, 'max_factor': 1},
                      timeout=1200, witnesses=['linked']))
+    # the encoder side: bitmaps that differ between the subsets of an uncompressed message; the links of the encoder's own
+    # template data and the written fields (width / reference of the designated owner) against the FM-94 reference
+    for name in ('qa222', 'stat224', 'diff225', 'reuse-237') + (('sub223', 'rep232', 'two-bitmaps', 'cancel-235') if thorough else ()):
+        J.append(Job('enc:u2:' + name, 'harness.c02', 'h_encode', {'family': name, 'n_subsets': 2, 'max_factor': 1, 'no_missing': True, 'nbits': 1024},
+                     timeout=3000 if thorough else 900, witnesses=['encoded']))
+    J.append(Job('enc:c2:c-224', 'harness.c02', 'h_encode', {'family': 'c-224', 'n_subsets': 2, 'compressed': True, 'max_factor': 1, 'no_missing': True,
+                                                         'max_diff_width': 1}, timeout=900, witnesses=['encoded']))
     if thorough:
         for name in ('qa222', 'stat224', 'reuse-237'):
             J.append(Job('c2:' + name, 'harness.c07', 'h_links', {'family': name, 'compressed': True, 'n_subsets': 2, 'max_factor': 1,
